@@ -14,7 +14,7 @@ from vcommon import *
 PROP = "C14"
 HERE = os.path.dirname(os.path.abspath(__file__))
 EVENT_CAP = 5000
-SIGNAME = {9: "SIGKILL", 11: "SIGSEGV", 6: "SIGABRT", 15: "SIGTERM"}
+SIGNAME = {9: "SIGKILL", 11: "SIGSEGV", 6: "SIGABRT", 15: "SIGTERM", 13: "SIGPIPE", 2: "SIGINT", 1: "SIGHUP", 3: "SIGQUIT"}
 
 
 class Inconclusive(Exception):
@@ -249,8 +249,8 @@ def gen_fault(r, m, enabled):
         p = r.pick(procs)
         n = r.pick([1, 1, 2, 3, 4, 6, 9])
         if kind == "childexit":
-            return {"proc": p, "ev": "*", "n": n, "act": "exit", "status": r.pick([1, 1, 2, 255])}
-        return {"proc": p, "ev": "*", "n": n, "act": "die", "sig": r.pick([11, 9, 6])}
+            return {"proc": p, "ev": "*", "n": n, "act": "exit", "status": r.pick([1, 1, 2, 255, 127, 126, 3, 64, 128])}
+        return {"proc": p, "ev": "*", "n": n, "act": "die", "sig": r.pick([11, 9, 6, 15, 13, 2, 1, 3])}
     if kind == "callockill":
         c = [s for s in procs if s.startswith("cc1")]
         if not c:
@@ -957,6 +957,17 @@ def check(env, wdir, scn, res, solo, refs, which):
                 b, a = res["before"].get(t), res["after"].get(t)
                 if a != b:
                     v.append(("O2-output-of-failed-unit-touched", i, "%s failed (%s) but %s was %s" % (tu["cc1"], cc1_failed[0][1], t, "created" if b is None else "overwritten")))
+        # O2b a unit whose pipeline never started leaves its output alone (nothing ran that could have produced it)
+        started = set(c["label"] for c in st["children"])
+        for tu in m["tus"]:
+            if tu["output"] and not tu["output"].startswith("/") and not ((tu["cc1"] in started) or (tu["as"] in started)):
+                if m["mode"] in ("S", "c") and res["before"].get(tu["output"]) != res["after"].get(tu["output"]) \
+                        and not any(t2 is not tu and t2["output"] == tu["output"] for t2 in m["tus"]):
+                    v.append(("O2-output-of-unstarted-unit-touched", i, "nothing was run for %s, yet %s changed" % (tu["input"], tu["output"])))
+        if m["mode"] == "link" and m["inputs"] and not any(l.startswith("ld#") for l in started):
+            t = m["out"] or "a.out"
+            if not t.startswith("/") and res["before"].get(t) != res["after"].get(t):
+                v.append(("O2-output-of-unstarted-unit-touched", i, "the linker was never started, yet %s changed" % t))
         # O3 no temporaries (per invocation: every mkstemp name handed to it is gone)
         for t in st["temps"]:
             if os.path.exists(t):
@@ -1155,6 +1166,9 @@ def enumeration_scenarios():
             variants.append([{"proc": step, "ev": "start", "n": 1, "act": "exit", "status": 1}])
             variants.append([{"proc": step, "ev": "start", "n": 1, "act": "die", "sig": 11}])
             variants.append([{"proc": step, "ev": "*", "n": 3, "act": "die", "sig": 9}])
+            variants.append([{"proc": step, "ev": "*", "n": 2, "act": "die", "sig": 15}])   # cancellation-type signals
+            variants.append([{"proc": step, "ev": "start", "n": 1, "act": "die", "sig": 2}])
+            variants.append([{"proc": step, "ev": "start", "n": 1, "act": "exit", "status": 255}])
             variants.append([{"proc": step, "ev": "fopen-w", "n": 1, "act": "wbudget", "bytes": 0, "errno": errno.ENOSPC}])
             variants.append([{"proc": step, "ev": "fopen-r", "n": 1, "act": "fail", "errno": errno.EACCES}])
             if step.startswith("cc1"):
@@ -1431,8 +1445,8 @@ def main(argv):
         "determinism": {"scenarios_executed_twice": agg["det_pairs"], "mismatches": agg["det_mismatch"]},
         "by_tools": by_tools, "by_mode": by_mode, "invocations_per_scenario": ninv, "violation_classes_seen": classes,
         "single_failure_enumeration": {"scenarios": enum_info.get("scenarios", 0), "executed": enum_info.get("runs", 0), "exhaustive": bool(enum_info.get("complete")),
-                                       "space": "42 command shapes x every pipeline step x {exit 1 at start, SIGSEGV at start, SIGKILL at 3rd event, write error on first output, "
-                                                "open error on first input, 2 allocation-count crashes for cc1} x {output absent, output pre-existing}, one invocation, fixed schedule"},
+                                       "space": "42 command shapes x every pipeline step x {exit 1 at start, exit 255 at start, SIGSEGV at start, SIGINT at start, SIGTERM at 2nd event, SIGKILL at 3rd event, "
+                                                "write error on first output, open error on first input, 2 allocation-count crashes for cc1} x {output absent, output pre-existing}, one invocation, fixed schedule"},
         "private_tmp_namespace": enum_info.get("private_tmp", True),
         "components": {"real": ["driver, cc1 (chibicc built from the working tree)", "kernel process and file semantics, glibc stdio", "GNU as in %d runs, GNU ld in %d runs" % (by_tools.get("realas", 0) + by_tools.get("real", 0), by_tools.get("real", 0))],
                        "stub": ["as and ld in %d runs (tiny C programs under the same shim, with careful error handling)" % by_tools.get("stub", 0)],
